@@ -391,6 +391,91 @@ def L2_guards(ctx, rid, core, G, scope_fns):
                      "child `%s` of %s is parenthesised for kinds %s; the grammar needs parentheses also for %s" % (child, variant, sorted(wrapped) or "none", missing) if missing else "child `%s` is parenthesised for every kind that needs it (%s)" % (child, sorted(wrapped)), loc)
 
 
+def lambda_head(ctx, rid, core, G, scope_fns):
+    """A function literal printed as a list item or call argument is read by `spreadable_expression`, which tries
+    `spread_expression` (the spread token, then an expression) first. A lone rest parameter written without parentheses makes the
+    printed lambda begin with the spread token: it re-reads as a spread of a different lambda."""
+    ctx.rule(rid, "a printed function literal never begins with the spread token: the parameter list is written without parentheses only for parameter kinds whose text does not begin with it (list items and call arguments try spread_expression first)", floor=2)
+    try:
+        spread_first = (G.alt_names("spreadable_expression") or [None])[0] == "spread_expression"
+        tok = G.literal_of("spread_operator") or "..."
+    except Exception:
+        spread_first, tok = True, "..."
+    I_, pf = interp(core)
+    LARG = "values::LambdaArg"
+
+    def first_input(f):
+        return (f.get("inputs") or [""])[0]
+    single = {n_: f for n_, f in pf.items() if LARG in first_input(f) and "[" not in first_input(f) and "Vec<" not in first_input(f) and f.get("output") == "alloc::string::String"}
+    dotted = {}
+    for n_, f in single.items():
+        d_ = set()
+        seen_ = set()
+        for alt in I_.function(f):
+            cs = [x for x in alt if x[0] == "case"]
+            flat = strip_layout(Y.flatten(alt))
+            if not cs or not flat:
+                d_ = None
+                break
+            seen_ |= set(cs[0][2].split("|"))
+            if flat[0][0] == "tok" and flat[0][1].startswith(tok):
+                d_ |= set(cs[0][2].split("|"))
+            elif flat[0][0] not in ("tok", "ident"):
+                d_ = None
+                break
+        dotted[n_] = d_
+
+    def heads(alt, facts, depth):
+        """[(verdict, why)] for one alternative of a lambda's text"""
+        facts = facts + tuple(f_ for x in alt if x[0] == "when" and len(x) > 3 for f_ in x[3])
+        flat = [x for x in strip_layout(Y.flatten(alt)) if x[0] not in ("when", "case")]
+        if not flat:
+            return [(None, "empty")]
+        h = flat[0]
+        if h[0] == "tok":
+            return [(not h[1].startswith(tok), "begins with %r" % h[1])]
+        if h[0] == "child":
+            callee = h[2] if h[2] in pf else next((k for k in pf if k.endswith("::" + str(h[2]))), None)
+            if callee in single:
+                if dotted.get(callee) is None:
+                    return [(None, "the parameter printer %s was not modelled" % h[2])]
+                allowed = None
+                for f_ in facts:
+                    if f_[0] == "kind" and f_[3] is True and set(f_[2].split("|")) <= {"Required", "Optional", "Rest"}:
+                        allowed = set(f_[2].split("|")) if allowed is None else allowed & set(f_[2].split("|"))
+                    if f_[0] == "kind" and f_[3] is False and set(f_[2].split("|")) <= {"Required", "Optional", "Rest"}:
+                        allowed = ({"Required", "Optional", "Rest"} if allowed is None else allowed) - set(f_[2].split("|"))
+                bad = dotted[callee] if allowed is None else dotted[callee] & allowed
+                return [(not bad, "a parameter is written without parentheses for kinds %s; kinds whose text begins with %r: %s" % (sorted(allowed) if allowed is not None else "any", tok, sorted(dotted[callee])))]
+            if callee is not None and LARG in first_input(pf[callee]) and depth < 3 and not is_buffer_printer(pf[callee]):
+                out = []
+                for a2 in I_.function(pf[callee]):
+                    out += heads(a2, facts, depth + 1)
+                return out or [(None, "helper %s yields nothing" % h[2])]
+            return [(None, "begins with text from %s" % (h[2],))]
+        return [(None, "begins with %s" % (h[0],))]
+
+    n = 0
+    for name, variant, alts, ren, loc in arms_of(core, I_, pf):
+        if variant != "Lambda" or not any(("::%s::" % s_) in name for s_ in scope_fns):
+            continue
+        res = []
+        for alt in alts:
+            if any(x[0] == "unk" for x in Y.flatten(alt)[:1]):
+                res.append((None, "not modelled"))
+                continue
+            res += heads(alt, (), 0)
+        n += 1
+        if not spread_first:
+            ctx.inst(rid, "%s[Lambda]#head" % name.replace(CORE, ""), True, "the grammar does not try a spread before an expression in item positions", loc)
+            continue
+        bad = [w for v, w in res if v is False]
+        unk = [w for v, w in res if v is None]
+        ctx.inst(rid, "%s[Lambda]#head" % name.replace(CORE, ""), False if bad else (None if unk else True), "%d alternative head(s): %s" % (len(res), sorted(set(bad or unk or [w for _, w in res]))[:3]), loc)
+    if n == 0:
+        ctx.inst(rid, "Lambda#head", None, "no printer arm for Expr::Lambda was found", None)
+
+
 def comment_order(ctx, rid, core, G):
     ctx.rule(rid, "for every member of a list, record or do-block the formatter emits the leading comments, then the member, then its trailing comment, in that order", floor=3)
     I_, pf = interp(core)
